@@ -35,7 +35,7 @@ RULE = (
 )
 ASSUMPTIONS = ["comparisons only on input states at least (number of ladder-type atoms) + 1 away from the truncation edge"]
 REQUIRED_CLASSES = {"all": ["right-operand>=2-annihilators", "number-coefficient-with-annihilators", "mixed-statistics",
-                            "has-fermion", "has-spin", "has-ladder", "kind=word", "kind=tree", "two-fermion-right-operand"]}
+                            "has-fermion", "has-spin", "has-ladder", "kind=word", "kind=tree", "two-fermion-right-operand", "complex-coefficient"]}
 
 MODE_SETS = [
     [["b", "a"]], [["b", "a"]], [["l", "l"]], [["s", "s"]], [["f", "f"], ["f", "g"]], [["f", "f"], ["f", "g"], ["f", "h"]],
@@ -49,7 +49,9 @@ def _atoms(modes):
     ops, nums = [], []
     for kind, name in modes:
         ops += [["op", kind, name], ["dag", kind, name]]
-        nums += [["num", kind, name], ["inv", kind, name, 1], ["inv", kind, name, 3], ["poly", kind, name, [1, 0, 1]], ["poly", kind, name, [-1, 2, 0]]]
+        nums += [["num", kind, name], ["inv", kind, name, 1], ["inv", kind, name, 3], ["poly", kind, name, [1, 0, 1]], ["poly", kind, name, [-1, 2, 0]],
+                 # complex functions of the number operator: 2 - i N and i N
+                 ["cpoly", kind, name, [2, -1]], ["cpoly", kind, name, [0, 1]]]
         if kind == "s":
             ops += [["sigma", name, "x"], ["sigma", name, "y"], ["sigma", name, "z"]]
     return ops, nums
@@ -66,7 +68,7 @@ def _paren(draw, items):
 @st.composite
 def _tree(draw, ops, nums, depth):
     if depth == 0 or draw(st.integers(0, 3)) == 0:
-        return draw(st.sampled_from(ops + ops + nums + [["const", 2, 1], ["const", 1, 3], ["const", -1, 2]]))
+        return draw(st.sampled_from(ops + ops + nums + [["const", 2, 1], ["const", 1, 3], ["const", -1, 2], ["consti", 2, -3], ["consti", 0, 1]]))
     t = draw(st.sampled_from(["mul", "mul", "mul", "add", "sub", "pow", "dagger"]))
     if t in ("mul", "add", "sub"):
         return [t, draw(_tree(ops, nums, depth - 1)), draw(_tree(ops, nums, depth - 1))]
@@ -99,7 +101,7 @@ def degree(tree):
     t = tree[0]
     if t in ("op", "dag", "sigma"):
         return 1
-    if t in ("num", "inv", "invi", "poly", "const"):
+    if t in ("num", "inv", "invi", "poly", "cpoly", "const", "consti"):
         return 0
     if t == "mul":
         return degree(tree[1]) + degree(tree[2])
@@ -133,6 +135,8 @@ class Sem:
         t = a[0]
         if t == "const":
             return sp.Rational(a[1], a[2])
+        if t == "consti":
+            return sp.Integer(a[1]) + sp.I * sp.Integer(a[2])
         if t == "sigma":
             return {"x": self.pauli.SigmaX, "y": self.pauli.SigmaY, "z": self.pauli.SigmaZ}[a[2]](a[1])
         op = self.by_name[(a[1], a[2])]
@@ -150,6 +154,9 @@ class Sem:
         if t == "poly":
             c = a[3]
             return sp.Integer(c[0]) + c[1] * n + c[2] * n**2
+        if t == "cpoly":
+            c = a[3]
+            return sp.Integer(c[0]) + sp.I * c[1] * n
         raise AssertionError(a)
 
     def expr(self, tree):
@@ -218,9 +225,9 @@ def _annihilator_count(tree):
     t = tree[0]
     if t in ("op", "dag", "sigma"):
         return 1, 0
-    if t in ("num", "inv", "invi", "poly"):
+    if t in ("num", "inv", "invi", "poly", "cpoly"):
         return 0, 1
-    if t == "const":
+    if t in ("const", "consti"):
         return 0, 0
     if t in ("mul", "add", "sub"):
         a, b = _annihilator_count(tree[1]), _annihilator_count(tree[2])
@@ -228,12 +235,18 @@ def _annihilator_count(tree):
     return _annihilator_count(tree[1])
 
 
+def _has_complex(tree):
+    if tree[0] in ("cpoly", "consti") or (tree[0] == "sigma" and tree[2] == "y"):
+        return True
+    return any(isinstance(sub, list) and sub and isinstance(sub[0], str) and _has_complex(sub) for sub in tree[1:])
+
+
 def _kinds_in(tree, acc):
-    if tree[0] in ("op", "dag", "num", "inv", "invi", "poly"):
+    if tree[0] in ("op", "dag", "num", "inv", "invi", "poly", "cpoly"):
         acc.add(tree[1])
     elif tree[0] == "sigma":
         acc.add("s")
-    elif tree[0] != "const":
+    elif tree[0] not in ("const", "consti"):
         for sub in tree[1:]:
             if isinstance(sub, list):
                 _kinds_in(sub, acc)
@@ -365,6 +378,8 @@ def check_case(case, enforce_all=False):
             out.labels.append("right-operand>=2-annihilators")
             if _kinds_in(y, set()) == {"f"} or "f" in _kinds_in(y, set()):
                 out.labels.append("two-fermion-right-operand")
+    if _has_complex(tree):
+        out.labels.append("complex-coefficient")
     a, nf = _annihilator_count(tree)
     if nf >= 1 and a >= 2:
         out.labels.append("number-coefficient-with-annihilators")
@@ -397,6 +412,10 @@ def show(tree):
         return f"1/(N_{tree[2]}+{tree[3]})"
     if t == "poly":
         return f"p{tree[3]}(N_{tree[2]})"
+    if t == "cpoly":
+        return f"({tree[3][0]}+{tree[3][1]}i*N_{tree[2]})"
+    if t == "consti":
+        return f"({tree[1]}+{tree[2]}i)"
     if t == "sigma":
         return f"sigma_{tree[2]}({tree[1]})"
     return f"{tree[1]}/{tree[2]}"
